@@ -108,6 +108,7 @@ def describe(f, totals):
     head = {
         "decode": "valid bodies are rejected or decoded to other fields than the reference codec's",
         "reencode": "re-encoding the partially decoded message does not reproduce the original bytes",
+        "encode-complete-message": "a complete (reference) message is encoded differently by codecs.CustomRawCodec than by the reference codec",
         "truncation-accepted": "bodies truncated inside the leading fields are decoded without error",
         "malformed-accepted": "bodies whose leading layout is undefined are decoded without error",
         "panic": "the decoder panics",
